@@ -436,8 +436,12 @@ pub fn worker_main(check: &dyn Check, tier: Tier, seed: u64, start: u64, end: u6
     let limit = check.case_cpu_limit();
     let mut since_flush = 0u64;
     let mut evaluated = 0u64;
+    // witnesses are sent for the first few violations of a signature only; the rest are counted
+    let mut sent_per_sig: BTreeMap<String, u64> = BTreeMap::new();
+    let mut counted_only: BTreeMap<String, u64> = BTreeMap::new();
     for idx in start..end {
-        emit_line(&mut out, &json!({"t": "B", "i": idx}));
+        // begin marker (plain text: the driver reads millions of these)
+        let _ = writeln!(out, "B {}", idx);
         rec.index = idx;
         rec.marks_in_case = 0;
         rec.op("case", "");
@@ -471,19 +475,26 @@ pub fn worker_main(check: &dyn Check, tier: Tier, seed: u64, start: u64, end: u6
         evaluated += 1;
         since_flush += 1;
         for v in rec.violations.drain(before..) {
-            emit_line(
-                &mut out,
-                &json!({"t": "V", "i": v.index, "sig": v.signature, "what": v.what, "witness": v.witness}),
-            );
+            let n = sent_per_sig.entry(v.signature.clone()).or_insert(0);
+            *n += 1;
+            if *n <= 3 {
+                emit_line(
+                    &mut out,
+                    &json!({"t": "V", "i": v.index, "sig": v.signature, "what": v.what, "witness": v.witness}),
+                );
+            } else {
+                *counted_only.entry(v.signature).or_insert(0) += 1;
+            }
         }
         if since_flush >= 5000 || idx + 1 == end {
             let hashes: Vec<String> = rec.nontrivial.drain(..).map(|h| format!("{:x}", h)).collect();
             emit_line(
                 &mut out,
                 &json!({"t": "S", "n": evaluated + rec.extra_evaluations, "skipped": rec.skipped, "counters": rec.counters,
-                    "nontrivial": hashes, "samples": rec.samples}),
+                    "nontrivial": hashes, "samples": rec.samples, "more_violations": counted_only}),
             );
             rec.counters.clear();
+            counted_only.clear();
             rec.samples.clear();
             rec.want_samples = 0;
             rec.skipped = 0;
@@ -511,6 +522,8 @@ struct Agg {
     violations: Vec<Violation>,
     harness_errors: Vec<String>,
     inconclusive: Vec<String>,
+    /// violations beyond the first few per signature and worker: counted, witnesses not sent
+    more_violations: BTreeMap<String, u64>,
 }
 
 struct Finding {
@@ -645,6 +658,11 @@ fn run_range(sh: &Shared, slot: usize, mut start: u64, end: u64) {
         let mut since_summary = 0u64;
         for line in reader.lines() {
             let Ok(line) = line else { break };
+            if let Some(rest) = line.strip_prefix("B ") {
+                last_b = rest.trim().parse::<u64>().ok();
+                since_summary += 1;
+                continue;
+            }
             let Ok(v) = serde_json::from_str::<Value>(&line) else {
                 continue;
             };
@@ -668,6 +686,11 @@ fn run_range(sh: &Shared, slot: usize, mut start: u64, end: u64) {
                             if let Some(h) = h.as_str().and_then(|s| u64::from_str_radix(s, 16).ok()) {
                                 agg.nontrivial.insert(h);
                             }
+                        }
+                    }
+                    if let Some(mv) = v["more_violations"].as_object() {
+                        for (sig, n) in mv {
+                            *agg.more_violations.entry(sig.clone()).or_insert(0) += n.as_u64().unwrap_or(0);
                         }
                     }
                     if let Some(ss) = v["samples"].as_array() {
@@ -871,6 +894,11 @@ pub fn driver_main(check: &dyn Check, tier: Tier, seed: u64) -> RunOutcome {
             new_by_sig.entry(v.signature.clone()).or_default().push(v.clone());
         }
     }
+    for (sig, n) in &agg.more_violations {
+        if let Some(e) = known_seen.get_mut(sig) {
+            e.1 += n;
+        }
+    }
     let mut replay_paths = Vec::new();
     let replay_dir = format!("{}/out/replay/{}", VERIF_ROOT, id);
     if !new_by_sig.is_empty() {
@@ -894,7 +922,7 @@ pub fn driver_main(check: &dyn Check, tier: Tier, seed: u64) -> RunOutcome {
             "seed": seed,
             "tier": tier.name(),
             "index": v.index,
-            "occurrences": vs.len(),
+            "occurrences": vs.len() as u64 + agg.more_violations.get(sig).copied().unwrap_or(0),
             "regression_of_fixed_finding": was_fixed,
             "witness": v.witness,
             "replay_cmd": format!("./check {} --replay {}", id, path),
